@@ -126,3 +126,86 @@ Contract(
                        'len(vf) == N and forall(0, N, lambda j: vf[j] == self._result_krylov[j])'],
                'ghost_mut': ['coef'], 'frame': {'self': []}}},
 )
+
+
+# ---------------------------------------------------------------------------------------------------------------
+# LanczosEvolution.run(delta, normalize): which vector is returned.  Vectors are ghost values (direction, real scale);
+# `_build_krylov` and `_calc_result_full` are abstract (the latter is under contract above; "result_full is normalized at this
+# point" is its documented postcondition, the N == 1 branch multiplies the normalised start vector by a phase).
+# Clause: the result is the normalised vector iff `normalize` is True, or is None and np.real(delta) == 0 (documented default);
+# otherwise it is scaled by |psi0| * |expm(delta h) e_0|, i.e. it approximates expm(delta H) psi0 itself.
+_RE = z3.Function('re_part', z3.DeclareSort('Delta') if False else z3.IntSort(), z3.RealSort())
+
+
+def _vec(scale):
+    from pyvc.values import to_z3 as _t
+
+    def rmul(I, a):
+        return _vec(_t(a) * scale)
+    return SObj('GhostVector', None, {'scale': scale, '__rmul__': Builtin(rmul, 'scalar * vector'), '__mul__': Builtin(rmul, 'vector * scalar')})
+
+
+def _run_setup(I, env):
+    s = env['self']
+    s.attrs['psi0'] = _vec(z3.RealVal(1))
+    phase = SObj('GhostPhase', None, {'__mul__': Builtin(lambda I_, v: v, 'phase * vector')})       # |phase| == 1: the scale is kept
+    s.attrs['_result_krylov'] = SObj('GhostCoefficients', None, {'__getitem__': Builtin(lambda I_, i: phase, '_result_krylov[i]')})
+    d = env['delta']
+    I.ghost['__env__'] = {'re_delta': _RE(d), 'im_delta': z3.Function('im_part', z3.IntSort(), z3.RealSort())(d)}
+
+
+def _build(I, f, args, kwargs):
+    n = z3.Int('N_krylov')
+    I.assume(n >= 1)
+    return n
+
+
+
+def _hunt_run():
+    """witness on the real class: exponents of every kind x normalize in (None, True, False) against scipy's expm"""
+    import warnings
+    import numpy as np
+    import scipy.linalg
+    warnings.simplefilter('ignore')
+    import tenpy.linalg.np_conserved as npc
+    from tenpy.linalg import krylov_based as kb
+    from tenpy.linalg.sparse import FlatHermitianOperator
+    rng = np.random.default_rng(3)
+    n = 6
+    A = rng.normal(size=(n, n)) + 1.j * rng.normal(size=(n, n))
+    A = A + A.conj().T
+    leg = npc.LegCharge.from_trivial(n)
+    H = npc.Array.from_ndarray(A, [leg, leg.conj()], labels=['p', 'p*'])
+    v0 = rng.normal(size=n) + 1.j * rng.normal(size=n)
+    psi0 = npc.Array.from_ndarray(1.7 * v0 / np.linalg.norm(v0), [leg], labels=['p'])
+
+    class Op:
+        dtype = np.complex128
+        def matvec(self, x):
+            return npc.tensordot(H, x, axes=['p*', 'p'])
+    for delta in (-0.3j, -0.2, 0.1 - 0.2j, 0.):
+        for normalize in (None, True, False):
+            out, _ = kb.LanczosEvolution(Op(), psi0.copy(), {'N_max': n + 2, 'N_min': 2, 'P_tol': 1e-14, 'reortho': True}).run(delta, normalize=normalize)
+            exp = scipy.linalg.expm(delta * A) @ psi0.to_ndarray()
+            if normalize or (normalize is None and np.real(delta) == 0):
+                exp = exp / np.linalg.norm(exp)
+            if not np.allclose(out.to_ndarray(), exp, atol=1e-8):
+                return {'input': {'delta': str(delta), 'normalize': normalize, 'norm of psi0': 1.7, 'dimension': n},
+                        'observed': f'|result| = {np.linalg.norm(out.to_ndarray())}, documented: {np.linalg.norm(exp)}'}
+    return None
+
+
+from pyvc.contract import OneOf as _OneOf
+Contract(
+    target=f'{KB}::LanczosEvolution.run', props=['C16'],
+    params={'self': Obj('LanczosEvolution', KB, {'_psi0_norm': Real(), '_result_norm': Real(), '_h_krylov': Opaque()}),
+            'delta': Int(), 'normalize': _OneOf(None, True, False)},          # (delta: an index into the ghost function re_part)
+    setup=_run_setup, hunt=_hunt_run,
+    hooks={f'{KB}::KrylovBased._build_krylov': _build, f'{KB}::LanczosGroundState._build_krylov': _build,
+           f'{KB}::KrylovBased._calc_result_full': lambda I, f, a, k: _vec(z3.RealVal(1)),
+           f'{KB}::LanczosEvolution._calc_result_full': lambda I, f, a, k: _vec(z3.RealVal(1)),
+           'module:numpy.real': lambda I, x: I.ghost['__env__']['re_delta'], 'module:numpy.imag': lambda I, x: I.ghost['__env__']['im_delta']},
+    requires=['self._psi0_norm > 0 and self._result_norm > 0'],
+    ensures=['result[0].scale == ite(normalize == True or (is_none(normalize) and re_delta == 0), 1, self._psi0_norm * self._result_norm)',
+             'result[1] >= 1'],
+)
